@@ -7,6 +7,7 @@ package pubsub
 
 import (
 	"fmt"
+	"reflect"
 	"sort"
 	"strings"
 	"time"
@@ -439,10 +440,13 @@ func leakScan(w *nodeWorld, pid peer.ID) []leak {
 		if _, ok := gs.peerhave[pid]; ok {
 			add("router.peerhave", "")
 		}
-		for mid, m := range gs.mcache.peertx {
-			if _, ok := m[pid]; ok {
-				_, cached := gs.mcache.msgs[mid]
-				add("router.mcache.peertx", fmt.Sprintf("message %x, still cached: %v", shortHash([]byte(mid)), cached))
+		// (read through reflection: the scan must not stop compiling when the shape of this internal
+		// table changes)
+		if tx := reflect.ValueOf(gs.mcache).Elem().FieldByName("peertx"); tx.IsValid() && tx.Kind() == reflect.Map {
+			for _, k := range tx.MapKeys() {
+				if v := tx.MapIndex(k); v.Kind() == reflect.Map && v.Type().Key() == reflect.TypeOf(pid) && v.MapIndex(reflect.ValueOf(pid)).IsValid() {
+					add("router.mcache.peertx", fmt.Sprintf("message %x", shortHash([]byte(k.String()))))
+				}
 			}
 		}
 		if _, ok := gs.iasked[pid]; ok {
